@@ -13,6 +13,8 @@ YANG1 = """module rtx1 { yang-version 1.1; namespace "urn:verif:rtx1"; prefix a;
   import ietf-yang-metadata { prefix md; }
   md:annotation hint { type string; }
   md:annotation num { type int8; }
+  identity col; identity red { base col; } identity blue { base col; }
+  md:annotation org { type identityref { base col; } }
   container top {
     leaf s { type string; }
     leaf i64 { type int64; } leaf u64 { type uint64; } leaf i16 { type int16; }
@@ -37,10 +39,16 @@ YANG1 = """module rtx1 { yang-version 1.1; namespace "urn:verif:rtx1"; prefix a;
 YANG2 = """module rtx2 { yang-version 1.1; namespace "urn:verif:rtx2?a=1&b=2"; prefix a; import rtx1 { prefix r1; }
   import ietf-yang-metadata { prefix md; }
   md:annotation tag { type string; }
+  identity red { base r1:col; }
   augment "/r1:top" { leaf aug { type string; } container ac { presence "p"; leaf in2 { type string; } leaf-list al { type string; } } }
   augment "/r1:top/r1:l" { leaf lv2 { type string; } }
 }
 """
+YANG3 = """module rtx3 { yang-version 1.1; namespace "urn:verif:rtx3"; prefix c; import rtx1 { prefix r1; }
+  identity green { base r1:col; } identity red { base r1:col; }
+}
+"""
+NS3 = "urn:verif:rtx3"
 STR = [b"", b"a", b"a b", b" ", b"&", b"<", b">", b"\"", b"'", b"]]>", b"a\tb", b"a\nb", b"a\rb", b"\r\n", b"\\", b"/", b"\x7f", b"\xc3\xa9", b"\xe2\x82\xac",
        b"\xf0\x9f\x98\x80", b"\xef\xbf\xbd", b"{\"k\":1}", b"<x/>", b"&amp;", b"true", b"null", b"1e3", b"0", b"  x  "]
 
@@ -69,6 +77,11 @@ def to_xml(nodes, parent_mod=None, implicit=False):
         if n.meta:
             o += b' xmlns:m1="' + xesc(NS1.encode(), True) + b'" xmlns:m2="' + xesc(NS2.encode(), True) + b'"'
             for k, v in n.meta:
+                if k == "org":      # identityref: the JSON form "<module>:<identity>" becomes a prefix bound to the module's namespace
+                    mod, ident = v.split(b":")
+                    if mod == b"rtx3":
+                        o += b' xmlns:m3="' + NS3.encode() + b'"'
+                    v = {b"rtx1": b"m1:", b"rtx2": b"m2:", b"rtx3": b"m3:"}[mod] + ident
                 o += (b" m2:" if k == "tag" else b" m1:") + k.encode() + b'="' + xesc(v, True) + b'"'
         if n.kind in ("leaf", "leaflist"):
             out.append(o + (b"/>" if n.val == b"" else b">" + xesc(n.val) + b"</" + tag + b">"))
@@ -172,6 +185,10 @@ def meta_of(rng, p=0.25):
         m.append(("hint", rng.choice(STR + [text(rng, 4)])))
     if rng.random() < 0.4:
         m.append(("num", str(rng.choice([-128, -1, 0, 7, 127])).encode()))
+    if rng.random() < 0.35:
+        # identityref-typed annotation (the shape of ietf-origin): identities of the annotation's module, of a third module, and -
+        # rarely, because the value then needs the prefix the annotation's own module uses (F49) - of the augmenting module
+        m.append(("org", rng.choice([b"rtx1:red", b"rtx1:red", b"rtx1:blue", b"rtx3:green", b"rtx3:red"])))
     if rng.random() < 0.3:
         # annotation of the other module, which uses the SAME prefix: alone on its element, so that nested elements mix the two
         # namespaces under one prefix (F48); both on ONE element is finding F49 (duplicate xmlns:a attribute), exercised by the
@@ -262,8 +279,11 @@ def gen_op(rng):
     return "notif", [N("rtx1", "top", "cont", kids=[N("rtx1", "nt", "cont", kids=[N("rtx1", "z", "leaf", rng.choice(STR))] if rng.random() < 0.8 else [])])]
 
 
+QNAME_ATTRS = {NS1 + "\x01org"}
+
+
 def xml_struct(doc):
-    st = rtcomp.expat_structure(doc)
+    st = rtcomp.expat_structure(doc, QNAME_ATTRS)
     if st is None:
         return None
     res = []
@@ -314,7 +334,7 @@ def run_rtx(cx, laws=("roundtrip", "independent")):
     n = cx.n(250, 6000)
     cx.rule("rtx: %d generated instances over a fixed two-module schema (metadata on every node kind, anydata/anyxml, augmenting module, "
             "64-bit/decimal64/bits/binary/union/empty, user-ordered leaf-list) + %d RPC/action/notification trees; non-trivial = distinct instance" % (n, n // 2))
-    lines = ["0 rt ctx %s %s %s" % (hexs(searchdir), hexs(YANG1), hexs(YANG2))]
+    lines = ["0 rt ctx %s %s %s %s" % (hexs(searchdir), hexs(YANG1), hexs(YANG2), hexs(YANG3))]
     meta = {}
     for i in range(n):
         t = gen_top(rng)
@@ -401,7 +421,12 @@ def run_rtx(cx, laws=("roundtrip", "independent")):
             elif a != b:
                 cx.fail("rtx", "XML output read by an independent parser differs from the independent XML encoding of the same instance (elements, namespaces, attributes or character data)",
                         dict(base, xml_out=px.decode("utf-8", "replace")[:3000], first_diff=rtcomp.first_diff(a, b)))
-    rtcomp.model_xml_print(cx, xmlitems, "rtx")
+    # the tree-level XML model carries values as bytes; a value whose XML form needs namespace prefixes of its own (the
+    # identityref-typed annotation) is outside its fragment (the expat comparison above resolves those prefixes instead)
+    infrag = [(v, px) for v, px in xmlitems if b",org," not in v]
+    for _ in range(len(xmlitems) - len(infrag)):
+        cx.count(None, False, "rtx:xmltree-model:out-of-fragment (prefixed metadata value)")
+    rtcomp.model_xml_print(cx, infrag, "rtx")
     rtcomp.model_json_print(cx, [(0, "xml", m[3]) for m in meta.values() if m[0] == "rt" and m[1] == "xml"],
                             [head.split(" ", 3)[3]], "rtx")
     rtcomp.spec_xmldoc_vs_expat(cx, [px for _, px in xmlitems] + [m[3] for m in meta.values() if m[0] == "rt" and m[1] == "xml"], "rtx")
